@@ -33,7 +33,7 @@ if missing:
 man = {
     'version': 1,
     'setup_cmd': './bin/setup.sh',
-    'hooks': {'guard': 'verif', 'enable': 'harnesses are injected with a build overlay (go/packages Overlay for encoding, go test -overlay -tags verif for native replay); no file in /repo carries hooks',
+    'hooks': {'guard': 'verif', 'enable': 'harnesses are injected with a build overlay (go/packages Overlay for encoding, go test -overlay -tags verif for native replay); no file in /repo carries hooks.  Three checks additionally replace one function body of the tree through the same overlay, regenerated from the current file on every run, to stub the network below the code under test: liteclient/client.go liteServerRequest (C09, C10), liteapi/client.go GetTransactionsRaw (C08); C09 replaces liteclient/generated.go by the output of the current generator',
               'baseline_off_cmd': "cd /repo && go test -vet=off -count=1 -timeout 25m ./...", 'source_commits': [], 'add_only': True},
     'engines': [{'name': 'symgo', 'path': '/verif/symgo', 'serves_properties': sorted(claimed),
                  'kind_free_text': 'SSA (go/ssa via tools/ssa2json) -> bounded symbolic executor in Python -> z3 5.1 (cross-checked with z3 4.8.12 and cvc5 1.0); native replay through go test -overlay'}],
